@@ -35,7 +35,10 @@
 (*              clearing (LineageModel on the pinned tree)                 *)
 (*   FlagDesign "reset" | "forget"   an edit keeps initialized = TRUE      *)
 (*   DetDesign  "share" | "rebind"   the deterministic simulator re-binds  *)
-(*              the interface's parameter array to a private copy          *)
+(*              the interface's parameter array to a private copy (what    *)
+(*              the code does when the model has rules; C08 compares       *)
+(*              through the model, so the replay only COUNTS an interface  *)
+(*              that stopped sharing - the invariant shows what is lost)   *)
 (*   SimDesign  "copy" | "alias"     a simulator works on initial_state    *)
 (*              itself, CopyDesign "fresh" | "shared" arrays of a copy     *)
 (***************************************************************************)
